@@ -89,6 +89,10 @@ def cases(rng, quick, gr):
             for tail in ["0.5", "0.25", "2j", "x", "pi", "1.5e-3"]:
                 yield {"tag": "exact-int-chain", "text": HDR + DECLS + "int big = %d\nint array BG =\n    %d, %d\nOp(%d - %d + %s, big - %d + %s, BG[0] - BG[1] - %s, %s + %d - %d, %d + %d - %d - %s) | 0\n"
                        % (b, b, b - d, b, b - d, tail, b - d, tail, tail, tail, b, b - d, d, b, b, tail)}
+    # (4e) integer products just below 2**63 (they fit; an overflow guard by bit lengths would not think so)
+    for e in ["3000000001 * 3000000001 - 9000000006000000000", "big3 * big3 - 9000000006000000000", "BI[0] * BI[1] + 1 - 9000000006000000001",
+              "2147483648 * 4294967295 - 9223372032559808511", "-3037000499 * 3037000499 + 9223372030926249001"]:
+        yield {"tag": "int-product-near-2^63", "text": HDR + DECLS + "int big3 = 3000000001\nint array BI =\n    3000000001, 3000000001\nOp(%s, 1 + (%s)) | 0\n" % (e, e)}
     # (5) row-major indexing with computed indices
     for k in range(6):
         yield {"tag": "index", "text": HDR + DECLS + "Op(A[%d], A[%d+0], A[n-3+%d], F[%d]) | A[%d]\n" % (k, k, k, k % 4, k)}
